@@ -251,11 +251,18 @@ func sameSetStr(a, b string) bool {
 }
 
 func (r *Runner) monC05(s *Step, rep *Reply) {
-	how := s.Op
+	how := r.opSig(s)
 	if rep.Err != "" {
 		how += "-failed"
+		if s.Op == "reconf" && s.Cfg != nil {
+			// which policy rejected what kind of configuration: known finding KF3 is about specific ones
+			how += ":" + r.Inst.Policy + ":" + s.Cfg.Note
+		}
 	}
 	if p := r.Inst.RM.PendingIDs(); len(p) > 0 {
+		if how == "remove-live" {
+			r.RemoveLiveLeftPending = true
+		}
 		sort.Strings(p)
 		var keys []string
 		for _, id := range p {
@@ -474,6 +481,61 @@ func (r *Runner) monC04(s *Step, rep *Reply) {
 			sig = "fit:assigned-zone"
 		}
 		r.Violate("C04", "fit", sig, "after successful %s: allocations confined to nodes {%s} exceed their capacity by %d bytes", s.Op, SetOf(maskList(worst)).String(), worstOver)
+	}
+	if worstOver == 0 {
+		// The same condition with amounts taken from the runtime model instead of the allocator's own records
+		// (a lower bound: the policies account a Burstable container's request as estimated from its OOM score
+		// adjustment, which is exact to about capacity/1000): an allocator that has lost the size of an
+		// allocation fits everything by its own arithmetic.
+		total := mach.TotalMemBytes()
+		tol := total/500 + (2 << 20)
+		type mq struct {
+			zone libmem.NodeMask
+			amt  int64
+		}
+		var mqs []mq
+		for _, c := range r.LiveCtrs() {
+			if r.memOptOut(c) || (r.Inst.Policy == PolBalloons && r.cpuOptOut(c)) {
+				continue
+			}
+			zone, ok := a.AssignedZone(c.ID)
+			if !ok || zone == 0 {
+				continue
+			}
+			amt := c.MemLim
+			if r.Inst.Policy == PolTA && c.MemReq > 0 {
+				amt = c.MemReq
+			}
+			if c.MemLim > 0 && amt > c.MemLim {
+				amt = c.MemLim // after an update that lowers the limit below the original request
+			}
+			if lim := total - total/100; amt > lim {
+				amt = lim // a request of (nearly) the whole machine or more cannot be told apart from its OOM score adjustment
+			}
+			if amt -= tol; amt > 0 {
+				mqs = append(mqs, mq{zone, amt})
+			}
+		}
+		for bits := 1; bits < 1<<len(nodes) && len(mqs) > 0; bits++ {
+			var mask libmem.NodeMask
+			var capacity, used int64
+			for i, id := range nodes {
+				if bits&(1<<i) != 0 {
+					mask |= libmem.NewNodeMask(libmem.ID(id))
+					capacity += capOf[id]
+				}
+			}
+			for _, q := range mqs {
+				if q.zone&mask == q.zone {
+					used += q.amt
+				}
+			}
+			if used > capacity {
+				r.Violate("C04", "fit-model", "fit-by-container-requests", "after successful %s: the memory requests of the containers confined to nodes {%s} exceed their capacity by at least %d bytes although the allocator's own records fit", s.Op, SetOf(maskList(mask)).String(), used-capacity)
+				break
+			}
+		}
+		r.Count("c04_fit_model_checked")
 	}
 	multi := 0
 	for _, q := range reqs {
